@@ -11,7 +11,7 @@ import (
 // Send indication gate: exactly one datagram leaves, from the sender's own relay socket, iff the
 // sender's allocation holds a permission for the peer IP; otherwise nothing is emitted anywhere.
 //
-//verif:props=C01,C04,C05 bounds="two allocations (distinct 5-tuples) each with one permission for an arbitrary IPv4/IPv6 peer; sender = arbitrary IPv4 address; DATA 0..8 bytes; arbitrary peer address incl. same IP other port"
+//verif:props=C01,C04,C05 bounds="two allocations (distinct 5-tuples) each with one permission for an arbitrary IPv4/IPv6 peer; sender = arbitrary IPv4 address; DATA 0..8 (quick) / 0..32 (thorough) bytes; arbitrary peer address incl. same IP other port"
 func VerifHarness_C01_send_gate() {
 	s := vNewSrv(false, false)
 	c1, c2 := allocation.VUDPAddr4(), allocation.VUDPAddr4()
@@ -23,7 +23,7 @@ func VerifHarness_C01_send_gate() {
 	b.AddPermission(allocation.NewPermission(pb, &allocation.VLogger{}, s.pt))
 	src := allocation.VUDPAddr4()
 	peer := proto.PeerAddress{IP: allocation.VIP(), Port: allocation.VPort()}
-	data := vBytes(8)
+	data := vBytes(8 + 24*vTier())
 	msg := vNewMsg(stun.MethodSend, stun.ClassIndication, peer, proto.Data(data))
 	err := handleSendIndication(s.request(src), msg)
 	fromA, fromB := allocation.VSameUDP(src, c1), allocation.VSameUDP(src, c2)
